@@ -585,6 +585,9 @@ template <class T, class I> Result execRT(bool isRound, int style, int rstyle, c
   if (!l.empty()) res.oracle = "FAIL " + l;
   else if (!ovl.empty()) res.oracle = "FAIL " + ovl;
   else if (unrep || (R < 0 && !std::numeric_limits<I>::is_signed)) res.oracle = "ok trivial";  // the documented integer is -1: not a value of I
+  // trunc, unsigned target, documented result -1: what the code returns there is not behaviour the property talks about; it is
+  // not compared with the model either (the driver evaluates the same predicate and prints `unrep`)
+  if (unrep && l.empty()) res.impl = "unrep";
   stat(std::string(isRound ? "round_" : "trunc_") + RSTYLES[rstyle]);
   if (!std::numeric_limits<I>::is_signed && X < 0) {
     stat(std::string(isRound ? "round" : "trunc") + "_unsigned_arg_in_(-1,0)");
@@ -839,6 +842,15 @@ template <class T> std::string ftruncLaws(int style, int rstyle, bool uns, const
   return "";
 }
 
+// the documented definition of eq evaluated in the arithmetic of T itself (one rounding per operation): two-valued, used
+// only to delimit the domain exactly as the driver does (`truncUnrep` in Driver/C17.lean); the laws are decided by eqSlack
+template <class T> bool eqDocT(int style, T a, T b, T eps) {
+  T d = std::fabs(a - b), aa = std::fabs(a), ab = std::fabs(b);
+  if (style == 2) return d <= eps;
+  T m = style == 0 ? std::max(aa, ab) : std::min(aa, ab);
+  T tol = eps * m;
+  return d <= tol;
+}
 template <class T, class I> Result execFRT(bool isRound, int style, int rstyle, const Dy& dv_, const EpsArg& ea) {
   Result res;
   if (!representable<T>(dv_) || (!ea.dflt && (!representable<T>(ea.d) || ea.d.m < 0)))
@@ -862,6 +874,11 @@ template <class T, class I> Result execFRT(bool isRound, int style, int rstyle, 
   if (!l.empty()) res.oracle = "FAIL " + l;
   else if (!ovl.empty()) res.oracle = "FAIL " + ovl;
   else if (unrep || (R < 0 && uns)) res.oracle = "ok trivial";
+  if (!isRound && uns && X < 0 && l.empty() && !eqDocT<T>(style, val, T(0), eps) &&
+      (rstyle == 1 || rstyle == 2 || eqDocT<T>(style, T(-1), val, eps))) {
+    res.impl = "unrep";            // documented result -1 (see execRT)
+    if (res.oracle == "ok") res.oracle = "ok trivial";
+  }
   stat(std::string(isRound ? "fround_" : "ftrunc_") + RSTYLES[rstyle]);
   if (uns && X < 0) {
     stat(std::string(isRound ? "fround" : "ftrunc") + "_unsigned_arg_in_(-1,0)");
@@ -1020,7 +1037,6 @@ template <class M, class I> Result execMfrT(int style, int rstyle, bool dflt, M 
   std::string ovl;
   I r = callRTdyn<M, I>(true, style, rstyle, dflt, v, eps, ovl);
   I t = callRTdyn<M, I>(false, style, rstyle, dflt, v, eps, ovl);
-  res.impl = "round=" + std::to_string(r) + " trunc=" + std::to_string(t);
   auto asZ = [&](I x) { return uns && v.v < 0 && x == std::numeric_limits<I>::max() ? -1.0 : (double)x; };
   bool unrep = false;
   std::string l = mfRoundDocF<Fm>(style, rstyle, v.v, eps.v, asZ(r));
@@ -1028,6 +1044,7 @@ template <class M, class I> Result execMfrT(int style, int rstyle, bool dflt, M 
     l = mfTruncDocF<Fm>(style, rstyle, uns, std::isfinite(M(std::numeric_limits<I>::max()).v), v.v, eps.v, asZ(t), unrep);
     if (!l.empty()) l = "trunc: " + l;
   } else l = "round: " + l;
+  res.impl = "round=" + std::to_string(r) + " trunc=" + (unrep && l.empty() ? std::string("unrep") : std::to_string(t));
   if (!l.empty()) res.oracle = "FAIL " + l;
   else if (!ovl.empty()) res.oracle = "FAIL " + ovl;
   else if (unrep && asZ(r) < 0) res.oracle = "ok trivial";   // neither result is decided
